@@ -26,6 +26,7 @@ const (
 	PLocalCloseWhileBlocked
 	PEmptyPayload
 	PKeepAlive
+	PHeaderPause
 )
 
 var ProbeNames = map[int]string{
@@ -38,6 +39,7 @@ var ProbeNames = map[int]string{
 	PLocalCloseWhileBlocked: "local_close_while_receive_blocked",
 	PEmptyPayload:           "empty_payload",
 	PKeepAlive:              "keep_alive_packets_in_the_stream",
+	PHeaderPause:            "peer_paused_6s_or_40s_inside_a_frame_header",
 }
 
 const maxLen = 0x1FFFF
@@ -122,8 +124,17 @@ func lenBucket(n int) string {
 }
 
 func genLen(allowLarge bool) int {
-	a, b, c := hx.G(5), hx.G(len(boundaryLens)), hx.G(1<<16)
+	a, b, c := hx.G(7), hx.G(len(boundaryLens)), hx.G(1<<16)
 	switch a {
+	case 5: // every size up to 8 KiB is hit a few dozen times per quick run (unknown thresholds of fast paths)
+		return c % 8192
+	case 6: // sizes around buffer sizes SMB implementations like (4356 = SMB1 MaxBufferSize, 16644, 61440, 65535)
+		base := [...]int{4356, 4356, 16644, 61440, 8192, 1024}[c%6]
+		l := base + (c>>4)%9 - 4
+		if l >= 0xFFFF && !allowLarge {
+			return c % 40
+		}
+		return l
 	case 4: // around a power of two (thresholds of fast paths, buffer sizes) or a typical MSS
 		k := 5 + c%13 // 2^5 .. 2^17
 		l := 1<<uint(k) + (c>>4)%3 - 1
@@ -486,9 +497,46 @@ func Run(seed uint64, index int64, o hx.Opts) *hx.Result {
 				if pl.cutKind != cutNone {
 					data = stream[:pl.cutAt]
 				}
+				// sometimes the peer stops in the middle of a frame header for longer than any idle timer a
+				// receiver might run (6 s or 40 s), then carries on
+				pauseAt, pause := -1, int64(0)
+				if pl.segMode < 0 && len(pl.keepAt) == 0 {
+					if pz := hx.F(6); pz <= 1 && len(data) > 4 {
+						off, pos := 0, hx.F(len(legal)+1)
+						for i, p := range legal {
+							if i == pos {
+								break
+							}
+							off += 4 + len(p)
+						}
+						pauseAt = off + 1 + hx.F(3)
+						pause = [...]int64{6e9, 40e9}[pz]
+						if pauseAt >= len(data) {
+							pauseAt = -1
+						} else {
+							rt.Probe(PHeaderPause)
+						}
+					}
+				}
+				sent := 0
 				// the peer writes in its own chunks; the network segments them further
 				for len(data) > 0 {
 					k := len(data)
+					if pauseAt >= 0 && sent < pauseAt && sent+k > pauseAt {
+						k = pauseAt - sent
+					}
+					if pauseAt >= 0 && sent == pauseAt {
+						for {
+							_, inflight, _, _ := simnet.Unread(simnet.Peer(c))
+							if inflight == 0 {
+								break
+							}
+							rt.SleepUntil(rt.Now() + 1e6)
+						}
+						rt.SleepUntil(rt.Now() + pause)
+						pauseAt = -1
+						continue
+					}
 					if pl.segMode < 0 {
 						switch hx.F(4) {
 						case 1:
@@ -505,6 +553,7 @@ func Run(seed uint64, index int64, o hx.Opts) *hx.Result {
 						return
 					}
 					data = data[k:]
+					sent += k
 				}
 				switch pl.cutKind {
 				case cutFIN:
